@@ -665,7 +665,8 @@ Lemma policy_same w a b c r :
   match i_kind (st_inst a) with
   | KIntro => p_F2 a b = false
   | KRemote => p_F3 a b = false
-  | KGen | KCtx => True
+  | KGen => p_F10 a b = false
+  | KCtx => True
   end ->
   answer_of w a = Some (Answer r) ->
   policy_ok (st_inst b) r = policy_ok (st_inst a) r.
@@ -677,7 +678,11 @@ Proof.
   destruct (i_kind (st_inst a)) eqn:Kia; rewrite Kab in *; try reflexivity.
   - injection Ca as <-. injection Cb as Ee Ec.
     unfold p_F2, both, is_kind in G. rewrite Kia, Kab, Ea, Eb, <- Ee, Ec, String.eqb_refl, ep_eqb_refl in G.
-    simpl in G. apply negb_false_iff in G. apply strs_eqb_eq in G. now rewrite G.
+    simpl in G. apply negb_false_iff in G. apply andb_true_iff in G as [G1 G2].
+    apply strs_eqb_eq in G1, G2. now rewrite G1, G2.
+  - injection Ca as <-. injection Cb as Ee Ec.
+    unfold p_F10, both, is_kind in G. rewrite Kia, Kab, Ea, Eb, <- Ee, Ec, String.eqb_refl, ep_eqb_refl in G.
+    simpl in G. apply negb_false_iff in G. apply Bool.eqb_prop in G. now rewrite G.
   - destruct (rendered (st_inst a) (st_req a)) as [[va pa]|] eqn:Ra; [|discriminate].
     destruct (rendered (st_inst b) (st_req b)) as [[vb pb]|] eqn:Rb; [|discriminate].
     remember (le64 (ttl_val (st_inst a))) as ta eqn:Hta. remember (le64 (ttl_val (st_inst b))) as tb eqn:Htb.
@@ -720,11 +725,12 @@ Lemma pair_guards_compatible fx H w a b k r :
   wf_instb (st_inst a) = true -> wf_instb (st_inst b) = true -> orders_valid a -> orders_valid b ->
   json_faithful a b ->
   (fx2 fx = true \/ p_F2 a b = false) -> (fx3 fx = true \/ p_F3 a b = false) ->
+  (fx10 fx = true \/ p_F10 a b = false) ->
   p_F4 fx H a b = false -> p_F6 a b = false -> p_F7 a b = false ->
   key_of fx H a = Some k -> key_of fx H b = Some k -> fresh_of w a = OAllow r ->
   recheck fx (st_inst b) r = fresh_of w b.
 Proof.
-  intros Hinj Wa Wb Oa Ob J G2 G3 G4 G6 G7 Ka Kb Fa.
+  intros Hinj Wa Wb Oa Ob J G2 G3 G10 G4 G6 G7 Ka Kb Fa.
   destruct (key_injective fx H a b k Hinj Wa Wb Oa Ob Ka Kb G4) as (c & Ca & Cb).
   destruct (key_of_some fx H a k Ka) as (Ea & _). destruct (key_of_some fx H b k Kb) as (Eb & _).
   pose proof (components_determine_answer w a b c Ca Cb Ea Eb J G6 G7) as EA.
@@ -740,7 +746,10 @@ Proof.
       * rewrite G2. simpl. now destruct (policy_ok (st_inst b) r).
       * rewrite (policy_same w a b c r Ca Cb Ea Eb); [| rewrite Kk; exact G2 | exact An].
         rewrite Pa. now rewrite andb_false_r.
-    + rewrite (policy_same w a b c r Ca Cb Ea Eb); [| now rewrite Kk | exact An]. now rewrite Pa.
+    + destruct G10 as [G10|G10].
+      * rewrite G10. simpl. now destruct (policy_ok (st_inst b) r).
+      * rewrite (policy_same w a b c r Ca Cb Ea Eb); [| rewrite Kk; exact G10 | exact An].
+        rewrite Pa. now rewrite andb_false_r.
     + destruct G3 as [G3|G3].
       * rewrite G3. simpl. now destruct (policy_ok (st_inst b) r).
       * rewrite (policy_same w a b c r Ca Cb Ea Eb); [| rewrite Kk; exact G3 | exact An].
@@ -757,10 +766,11 @@ Qed.
 Theorem cache_transparent : forall fx H w h,
   injective H -> wf_history h ->
   (fx2 fx = true \/ g_F2 h = false) -> (fx3 fx = true \/ g_F3 h = false) ->
+  (fx10 fx = true \/ g_F10 h = false) ->
   g_F4 fx H h = false -> g_F6 h = false -> g_F7 h = false ->
   map sr_out (run_cached fx H w [] h) = map fst (run_fresh w h).
 Proof.
-  intros fx H w h Hinj [Wf Js] G2 G3 G4 G6 G7. apply cache_transparent_steps.
+  intros fx H w h Hinj [Wf Js] G2 G3 G10 G4 G6 G7. apply cache_transparent_steps.
   intros a b k r Ia Ib Ka Kb Fa.
   destruct (Wf a Ia) as [Wa Oa]. destruct (Wf b Ib) as [Wb Ob].
   assert (Self : forall s, In s h -> key_of fx H s = Some k -> fresh_of w s = OAllow r ->
@@ -776,10 +786,13 @@ Proof.
   destruct (exists_pair_false _ h a b G7 Ia Ib) as [->|[P7 _]]; [now apply Self|].
   assert (P2 : fx2 fx = true \/ p_F2 a b = false).
   { destruct G2 as [G2|G2]; auto. destruct (exists_pair_false _ h a b G2 Ia Ib) as [->|[P2 _]]; auto.
-    right. unfold p_F2. now rewrite strs_eqb_refl', andb_false_r. }
+    right. unfold p_F2. now rewrite !strs_eqb_refl', andb_false_r. }
   assert (P3 : fx3 fx = true \/ p_F3 a b = false).
   { destruct G3 as [G3|G3]; auto. destruct (exists_pair_false _ h a b G3 Ia Ib) as [->|[P3 _]]; auto.
     right. unfold p_F3. now rewrite (list_eqb_refl _ expr_eqb_eq_refl), andb_false_r. }
+  assert (P10 : fx10 fx = true \/ p_F10 a b = false).
+  { destruct G10 as [G10|G10]; auto. destruct (exists_pair_false _ h a b G10 Ia Ib) as [->|[P10 _]]; auto.
+    right. unfold p_F10. destruct (i_session (st_inst b)); simpl; now rewrite andb_false_r. }
   eapply (pair_guards_compatible fx H w a b k r); eauto.
 Qed.
 
@@ -831,7 +844,7 @@ Definition w_ok : inst :=
      i_ep := {| e_url := [PLit "http://opa/r/authz"]; e_method := "";
                 e_headers := [("X-A", [PValue "v1"])]; e_auth := ANone |};
      i_fwdh := []; i_fwdc := []; i_up := []; i_payload := Some [PLit "p="; PSubjectID; PLit "|"; PValue "v1"];
-     i_values := [("v1", [PReqHeader "X-V1"])]; i_ttl := Some five_min; i_scopes := []; i_exprs := [] |}.
+     i_values := [("v1", [PReqHeader "X-V1"])]; i_ttl := Some five_min; i_scopes := []; i_aud := []; i_session := false; i_exprs := [] |}.
 
 Definition ok_history : list step :=
   [mk_step w_ok (q_sub "alice" [("X-V1", "h1")] []) ["X-A"] ["v1"];
@@ -845,6 +858,7 @@ Definition ok_history : list step :=
 Theorem nonvacuous :
   wf_history ok_history /\
   g_F1 ok_history (Some 0) = false /\ g_F2 ok_history = false /\ g_F3 ok_history = false /\
+  g_F10 ok_history = false /\
   (forall fx H, (forall x, String.length (H x) = 32) -> g_F4 fx H ok_history = false) /\
   g_F6 ok_history = false /\ g_F7 ok_history = false /\
   (exists a b, nth_error ok_history 0 = Some a /\ nth_error ok_history 2 = Some b /\ same_request a b = true /\
@@ -860,6 +874,6 @@ Proof.
       repeat (destruct Ia as [<-|Ia]; [repeat (destruct Ib as [<-|Ib]; [intro E; try reflexivity; discriminate E|]); destruct Ib|]).
       destruct Ia.
   - intros fx H L. unfold g_F4. apply (exists_pair_mono _ (p_F4_shift fx H)); [apply p_F4_in_shift|].
-    destruct fx as [[] f2 f3]; cbv -[String.length Nat.eqb Nat.leb negb orb andb]; rewrite !L; reflexivity.
+    destruct fx as [[] f2 f3 f10]; cbv -[String.length Nat.eqb Nat.leb negb orb andb]; rewrite !L; reflexivity.
   - do 2 eexists. splits; try reflexivity. eexists. reflexivity.
 Qed.
